@@ -19,6 +19,7 @@ mod c15;
 mod c16;
 mod c18;
 mod c19;
+mod c20;
 mod lite;
 mod truth;
 mod xs;
@@ -80,6 +81,7 @@ fn main() {
             "C16" => c16::replay(&v),
             "C18" => c18::replay(&v),
             "C19" => c19::replay(&v),
+            "C20" => c20::replay(&v),
             _ => {
                 eprintln!("no replay for {id}");
                 2
@@ -104,6 +106,7 @@ fn main() {
             "C16" => c16::run(tier),
             "C18" => c18::run(tier),
             "C19" => c19::run(tier),
+            "C20" => c20::run(tier),
             "SMOKE" => smoke::run("/tmp/x/smoke"),
             _ => {
                 eprintln!("unknown property {id}");
